@@ -88,6 +88,7 @@ def st_request(cfgspec, knobs, base_dir, plan, record, extra=None):
         dk.finalize()
     out["fired"] = dk.fired
     out["write_sessions"] = len(dk.sessions)
+    out["session_paths"] = [os.path.basename(x.path) for x in dk.sessions]
     out["read_sessions"] = len(dk.read_sessions)
     if record and dk.sessions:
         out["writes"] = [[o, d.hex()] for o, d in dk.sessions[0].writes]
@@ -215,6 +216,8 @@ class Base:
             self.base_violation = v
             return
         self.fname = w["files"][0]
+        # does the writer write to the final path itself (as the pinned tree does), or through a temporary file it renames?
+        self.writer_in_place = bool(w.get("session_paths")) and w["session_paths"][0] == self.fname
         with open(os.path.join(d0, self.fname), "rb") as f:
             self.good = f.read()
         self.writes = [(o, bytes.fromhex(h)) for o, h in w["writes"]]
@@ -237,9 +240,11 @@ class Base:
         "fast path: the request returned fresh(R) and left a loadable file holding exactly that"
         if out["kind"] == "returned" and out["model"]["mazes"] == self.fresh["mazes"] and self._cfg_ok(out["model"]) and out["model"]["class"] == "MazeDataset":
             files = out.get("files") or []
-            if len(files) != 1:
-                return ("C11.leaves-loadable-file", f"after a successful request the cache directory holds {files}")
-            rb = core.stage(st_readback, os.path.join(d, files[0]))
+            name = getattr(self, "fname", None)
+            target = name if name in files else (files[0] if len(files) == 1 else None)
+            if target is None:
+                return ("C11.leaves-loadable-file", f"after a successful request the cache directory holds {files}" + (f", nothing under the cache name {name}" if name else ""))
+            rb = core.stage(st_readback, os.path.join(d, target))
             if rb["kind"] != "returned":
                 return ("C11.leaves-loadable-file", f"[{what}] request returned but the file left behind does not load: {rb.get('exc')}: {rb.get('msg', '')[:160]}")
             if rb["model"]["mazes"] != self.fresh["mazes"]:
@@ -334,12 +339,33 @@ def run_scenario(base: Base, sc: dict, idx: int) -> dict:
     kind = sc["kind"]
     log.add("scenario", sc)
     try:
-        if kind in ("crash", "torn", "lost", "trunc", "flip", "zero", "empty"):
+        if kind in ("crash", "torn") and sc["event"] >= 0:
+            # the interruption is EXECUTED: a real request in an empty directory whose save dies at this write (SimCrash inside
+            # write(), file objects dead, no destructor runs); what the next request finds is whatever that process left behind -
+            # also when the writer goes through a temporary file
+            os.makedirs(d)
+            plan = {"kind": kind, "event": sc["event"], "bytes": sc.get("bytes", 0)}
+            core.stage(st_request, base.cfg, base.knobs, d, plan, False)
+            left = sorted(os.listdir(d))
+            F = None
+            if base.fname in left:
+                with open(os.path.join(d, base.fname), "rb") as f:
+                    F = f.read()
+            if base.writer_in_place:
+                exp = base.image_for(sc)
+                if left not in ([base.fname], []) or F != exp:
+                    raise RuntimeError(f"harness: executed crash left {left} / another image than the write-log model for {plan}")
+                stats["probe_executed_crash_equals_log_model"] = 1
+            else:
+                stats["writer_uses_temporary_file"] = 1
+            stats["leftover_files_after_crash_%d" % len(left)] = 1
+        elif kind in ("crash", "torn", "lost", "trunc", "flip", "zero", "empty"):
             F = base.image_for(sc)
             os.makedirs(d)
             if F is not None:
                 with open(os.path.join(d, base.fname), "wb") as f:
                     f.write(F)
+        if kind in ("crash", "torn", "lost", "trunc", "flip", "zero", "empty"):
             log.add("image", hashlib.sha1(F).hexdigest() if F is not None else None)
             out = core.stage(st_request, base.cfg, base.knobs, d, None, False)
             v = base.judge(out, F, d, kind)
@@ -604,7 +630,7 @@ def run_history(base: Base, sc, d, log, stats):
                     return core.violation(v[0], v[1], log, stats=stats)
             if (fired.get("crash") or fired.get("torn")) and F is not None and plan.get("event") is not None:
                 stats["probe_crash_over_existing_file"] = 1
-            if fired.get("crash") or fired.get("torn"):
+            if (fired.get("crash") or fired.get("torn")) and base.writer_in_place:
                 # crash-model self-check: the image left by the *executed* crash path (SimCrash inside write(),
                 # dead file, destructors ignored) must equal the image computed from the recorded write log
                 exp = base.image_for({"kind": plan["kind"], "event": plan["event"], "bytes": plan.get("bytes", 0)})
